@@ -533,6 +533,13 @@ def h_graph(ax, mode):
         src_chunks = (16, 16)
     if mode == "band_chunked":  # Y,X,S source chunked along the sample axis too
         src_chunks = (16, 16, 1)
+    default_blocksize = mode.startswith("default_blocksize")
+    if default_blocksize:
+        # no blocksize given: the tile sizes come from the chunk sizes of the data -- also for
+        # one-pixel chunks (the only chunking a 1x1 image has; legal for any single row/column)
+        c_ = int(mode.rsplit("_", 1)[1])
+        assume(And(ny <= 2 * c_ + 1, nx <= 3 * c_)) if c_ < 8 else None
+        src_chunks = {"YX": (c_, c_), "YXS": (c_, c_, ns), "SYX": (1, c_, c_)}[ax]
     data = _FakeDask(shape, src_chunks)
     xx = _XX(data, g, 1 if ax == "SYX" else 0)
     if mode == "irregular_chunks":
@@ -587,7 +594,10 @@ def h_graph(ax, mode):
 
         tf._make_empty_cog = empty
         try:
-            r = tf.save_cog_with_dask(xx, "/out/file.tif", blocksize=16, stats=False)
+            if default_blocksize:
+                r = tf.save_cog_with_dask(xx, "/out/file.tif", stats=False)
+            else:
+                r = tf.save_cog_with_dask(xx, "/out/file.tif", blocksize=16, stats=False)
         finally:
             tf._make_empty_cog = orig_empty
     finally:
@@ -759,7 +769,7 @@ OBLIGATIONS = [
        functions=("odc.geo.cog._tifffile._make_empty_cog", "odc.geo.cog._shared.CogMeta.chunked", "odc.geo.cog._tifffile._compress_tiles"),
        bounds="image sides 1..4096, block from grid", stubs=("tifffile.TiffWriter recorder", "geotiff_metadata recorder", "dask re-chunk contract: ceil(N/c) blocks per axis (the replay builds the real dask graph; dask.base.quote aliased to dask.core.quote, which this dask release moved)"),
        setup=setup_tifffile, timeout_ms=20000),
-    Ob("L11_task_graph", h_graph, fixed(dict(ax="YX", mode="x"), dict(ax="YXS", mode="x"), dict(ax="SYX", mode="per_plane"), dict(ax="SYX", mode="single_chunk"), dict(ax="YX", mode="irregular_chunks"), dict(ax="YXS", mode="irregular_chunks"), dict(ax="YXS", mode="band_chunked")),
+    Ob("L11_task_graph", h_graph, fixed(dict(ax="YX", mode="x"), dict(ax="YXS", mode="x"), dict(ax="SYX", mode="per_plane"), dict(ax="SYX", mode="single_chunk"), dict(ax="YX", mode="irregular_chunks"), dict(ax="YXS", mode="irregular_chunks"), dict(ax="YXS", mode="band_chunked"), dict(ax="YX", mode="default_blocksize_1"), dict(ax="YX", mode="default_blocksize_16"), dict(ax="SYX", mode="default_blocksize_2")),
        descr="save_cog_with_dask/_compress_tiles: distinct task names per (level, plane), task i compresses the source block of tile i, tiles labelled (level, plane, y, x); write order = overviews smallest first, then full resolution",
        functions=("odc.geo.cog._tifffile.save_cog_with_dask", "odc.geo.cog._tifffile._compress_tiles", "odc.geo.cog._shared.CogMeta.tidx"),
        bounds="image sides 1..64 (symbolic), 16-pixel tiles, layouts YX / YXS(3) / SYX(3 planes, or 2 in one chunk); dask token assumed to separate nothing (constant)",
